@@ -30,7 +30,7 @@ pub fn v_rule(r: &asp::Rule) -> String {
     if body.is_empty() && r.head != asp::Head::Falsity { format!("{head}.") } else { format!("{head} :- {}.", body.join(" , ")) }
 }
 
-fn v_formula(f: &fol::Formula) -> String {
+pub fn v_formula(f: &fol::Formula) -> String {
     match f {
         fol::Formula::AtomicFormula(a) => a.to_string(),
         fol::Formula::UnaryFormula { formula, .. } => format!("not ({})", v_formula(formula)),
